@@ -192,10 +192,15 @@ class Message(BaseMessage):
         This is the reverse of str(msg).
         """
         try:
-            return cl(**str2msg(text))
+            msgdict = str2msg(text)
         except LookupError as le:
             # Unknown message type (LookupError) or empty text (IndexError).
             raise ValueError(f'invalid message string {text!r}') from le
+
+        # Words like 'self=1' or 'skip_checks=1' are not attributes of the
+        # message. They must not reach the constructor as keyword arguments.
+        check_msgdict(msgdict)
+        return cl(**msgdict)
 
     def __len__(self):
         if self.type == 'sysex':
